@@ -108,24 +108,40 @@ def run(ctx):
         tl = [' '.join(l.split(' ')[:5] + ['1']) for l in tl]
         tim = ctx.impl(tl, tokio=True)
         ctx.evaluations += len(tl)
-        for line, b in zip(tl, tim):
-            case = {'line': line, 'runtime': 'tokio'}
-            ctx.count('tokio:when:' + line.split(' ')[4])
+
+        def tokio_verdict(line, b):
+            """-> None when the observations satisfy the property, else (class, expected, what, failing_input)"""
             if not b.startswith('returned='):
-                ctx.report(case, b, 'scenario runs', cls='shutdown-harness', failing_input=(b in ('PANIC', 'DIED', 'TIMEOUT')),
-                           what='tokio shutdown scenario failed: ' + b)
-                continue
+                return ('shutdown-harness', 'scenario runs', 'tokio shutdown scenario failed: ' + b, b in ('PANIC', 'DIED', 'TIMEOUT'))
             f = dict(kv.split('=', 1) for kv in b.split(' ') if '=' in kv)
             ok, tot = f['inflight'].split('/')
             if f['returned'] == 'never' or int(f['returned']) > 2000:
-                ctx.report(case, b[:300], 'run returns within 2 s', cls='shutdown-hang', failing_input=True, what='tokio run did not return promptly')
-            elif f['rebind'] != '1':
-                ctx.report(case, b[:300], 'port can be bound again', cls='shutdown-port', failing_input=True, what='tokio: port not freed')
-            elif f['probe'] != '1':
-                ctx.report(case, b[:300], 'served before the signal', cls='shutdown-early', failing_input=True, what='tokio: request before the signal not served')
-            elif ok != tot:
-                ctx.report(case, b[:300], 'in-flight responses complete', cls='shutdown-truncated', failing_input=True,
-                           what='tokio: response to a request received before the signal truncated (%s)' % f['inflight'])
+                return ('shutdown-hang', 'run returns within 2 s', 'tokio run did not return promptly', True)
+            if f['rebind'] != '1':
+                return ('shutdown-port', 'port can be bound again', 'tokio: port not freed', True)
+            if f['probe'] != '1':
+                return ('shutdown-early', 'served before the signal', 'tokio: request before the signal not served', True)
+            if ok != tot:
+                return ('shutdown-truncated', 'in-flight responses complete',
+                        'tokio: response to a request received before the signal truncated (%s)' % f['inflight'], True)
+            return None
+        # The tokio runtime is judged by observations only (no event trace), and "received before the signal" is a matter of
+        # timing the harness cannot see from outside: a scenario that fails once is run again, and only a failure that
+        # repeats is reported (a one-off is counted in the evidence).
+        first = [(line, b, tokio_verdict(line, b)) for line, b in zip(tl, tim)]
+        again = [line for line, b, v in first if v is not None]
+        second = dict(zip(again, ctx.impl(again, tokio=True))) if again else {}
+        ctx.evaluations += len(again)
+        for line, b, v in first:
+            ctx.count('tokio:when:' + line.split(' ')[4])
+            if v is None:
+                continue
+            b2 = second.get(line, b)
+            v2 = tokio_verdict(line, b2)
+            if v2 is None:
+                ctx.count('tokio: one-off observation not repeated (%s)' % v[0])
+                continue
+            ctx.report({'line': line, 'runtime': 'tokio'}, b2[:300], v2[1], cls=v2[0], failing_input=v2[3], what=v2[2] + ' (twice in two runs)')
     for k in (0, len(lines) // 2):
         if k < len(lines):
             ctx.sample({'scenario': lines[k], 'observed': im[k][:300], 'model': m[k]})
